@@ -241,3 +241,18 @@ def run(cx):
         for tr in ("core::cmp::Ord", "core::cmp::PartialOrd", "core::cmp::PartialEq", "core::cmp::Eq"):
             ims = [im for im in prog.impls if im["trait"] == tr and im["self_ty"] == "anemo::types::peer_id::PeerId"]
             ob.require(len(ims) == 1 and ims[0]["derived"], f"PeerId/derive/{tr}", f"PeerId: impl {tr} derived={[i['derived'] for i in ims]}", a["path"])
+
+    with cx.ob("C05.5", "R-MUSTPASS", "no shortcut around the tie-break: every established connection reaches ActivePeers::add, and nothing but add()'s tie-break closes a duplicate (C03.6 registration rules re-evaluated)") as ob:
+        from . import c03
+        sub = cx.__class__("C05", prog, cx.tier, cx.config, cx.tree, repo=cx.repo)
+        c03.run(sub)
+        w = [x for x in sub.obs if x.oid == "C03.6"]
+        ob.count(w[0].evals if w else 0)
+        bad = [v for v in (w[0].violations if w else []) if "add_peer" in v.key or "reply/after-registration" in v.key or "reply/registers" in v.key]
+        ob.require(bool(w) and not bad, "registration/no-shortcut",
+                   "a connection can be dropped or closed between the handshake and ActivePeers::add (so the tie-break is not consulted): " + "; ".join(v.msg for v in bad)[:300],
+                   "anemo::network::connection_manager::ConnectionManager::add_peer")
+        # the only closes of a live duplicate are the two inside ActivePeersInner::add (winner keeps, loser closed)
+        check_callers(ob, prog, "anemo::connection::Connection::close",
+                      ["anemo::network::connection_manager::ActivePeersInner::add", "anemo::network::connection_manager::ActivePeersInner::remove",
+                       "anemo::network::connection_manager::ActivePeersInner::remove_with_stable_id"], crates=["anemo"], floor=3, what="Connection::close")
